@@ -48,12 +48,15 @@ JChomskyPhase(e) ==
   IN BadG("valid_grammar", ~ValidCFG(G))
      \cup BadG("postcondition", ~Post(G0, G, e.phase, G0.start))
      \cup BadG("language_equal_up_to_n", CfgLangUpTo(G, S, e.n) # CfgLangUpTo(G0, S, e.n))
+     (* "every variable it introduces is distinct from all existing ones": had an introduced variable been an  *)
+     (* existing one, that variable would have gained the rules meant for the new one.  So in the phases that   *)
+     (* only ADD helper variables (1, 4, 5) no variable of the input gains a right-hand side, and the new start  *)
+     (* variable is not a variable of the input.  (How MANY variables a phase introduces is not prescribed: an   *)
+     (* implementation may share helper variables between rules or re-use a variable whose only rule is B -> a.) *)
      \cup BadG("fresh_distinct",
-               LET new == Cardinality(G.V \ G0.V)
-                   exp == ExpectedNew(G0, e.phase)
-               IN ~(/\ G0.V \subseteq G.V
-                    (* phase 4 may share one right-hand side between several rules: at most, and some *)
-                    /\ IF e.phase = 4 THEN new <= exp /\ (new = 0 <=> exp = 0) ELSE new = exp))
+               LET Rhs(H, X) == {r[2] : r \in {r \in Rules(H) : r[1] = X}}
+               IN \/ (e.phase = 1 /\ G.start \in G0.V)
+                  \/ (e.phase \in {1, 4, 5} /\ \E X \in G0.V : Cardinality(Rhs(G, X)) > Cardinality(Rhs(G0, X))))
      \cup BadG("same_terminals", G.S # G0.S)
      \cup BadG("input_unchanged", e.post # e.pre)
      (* binding: the deterministic phases give exactly the model's grammar - variables, start and the rule LIST *)
